@@ -201,7 +201,10 @@ def _observe(scn, sched, pairs, aio):
         obs["ties"] = len(set(insts)) < len(insts)
         for job, spec in sorted(pairs, key=lambda p: core.inst_of(p[0].datetime)):
             r = job._str()
-            obs["rows"].append({"cells": [r[0], r[1] + r[2], r[3], r[4] or "", r[5], f"{r[6]}/{r[7]}"] + ([] if aio else [f"{job.weight}"])})
+            # the distance the "due in" cell renders, in whole microseconds (the clock does not move between the two reads)
+            td_us = job.timedelta(CLOCK.now(job.tzinfo)) // dt.timedelta(microseconds=1)
+            obs["rows"].append({"cells": [r[0], r[1] + r[2], r[3], r[4] or "", r[5], f"{r[6]}/{r[7]}"] + ([] if aio else [f"{job.weight}"]),
+                                "td_us": td_us, "due_in": r[5]})
     except Exception as e:  # noqa: BLE001
         obs["rows_err"] = f"{type(e).__name__}: {e}"
     obs["n"] = len(sched.jobs)
@@ -315,13 +318,15 @@ def specs(r):
         qs.append(("spec eq 0 1", {"what": "str(job) raised", "err": ob["jobstr_err"]}))
     if ob.get("repr_err"):
         qs.append(("spec eq 0 1", {"what": "repr(scheduler) / repr(job) raised", "err": ob["repr_err"]}))
-    elif "repr_items" in ob:
-        qs.append((f"spec eq {ob['repr_items']} {ob['n']}", {"what": "repr(scheduler) lists every registered job once"}))
     if ob.get("table") is not None:
         n = len(ob["rows"])
         qs.append((f"spec eq {ob['body_len']} {ob['W'] * (n + 2)}", {"what": "row_width: table is n+2 chunks of the header-row width", "rows": n}))
         qs.append((f"spec eq {1 if ('#jobs=%d' % ob['n']) in ob.get('heading', '') else 0} 1", {"what": "count_in_heading", "heading": ob.get("heading")}))
         qs.append((f"spec eq {n} {ob['n']}", {"what": "one_row_per_job"}))
+    for row in ob.get("rows", []):
+        if "td_us" in row:
+            # the "due in" text against the model of prettify_timedelta
+            qs.append((f"spec prettify {row['td_us']} {cps(row['due_in'])}", {"what": "due-in text is the model's prettify_timedelta", "td_us": row["td_us"], "text": row["due_in"]}))
     if ob.get("sort_err"):
         qs.append(("spec eq 0 1", {"what": "sorted(scheduler.jobs) raised", "err": ob["sort_err"]}))
     elif "iter_dues" in ob:
